@@ -814,14 +814,44 @@ def r4_python(ctx: Ctx) -> None:
         if kind == 'if':
             ifs = [n for n in pf.walk_shallow(fn) if isinstance(n, ast.If) and 'regions' in pf.nsrc(n.test) and 'supported_regions' in pf.nsrc(n.test)]
             ctx.need(len(ifs) == 1, f'{rel}::{q}: the test for unsupported regions not recognised')
-            okr = any(isinstance(c, ast.Call) and (pf.dotted(c.func) or '') == 'mark_job_errored' for b in ifs[0].body for c in pf.walk_shallow(b))
+            okr = _marks_errored(m, fn, ifs[0].body)
+            ctx.need(okr is not None, f'{rel}::{q}: the branch for unsupported regions calls a helper that is not followed')
             line = ifs[0].lineno
         else:
             hs3 = [h for h in ast.walk(fn) if isinstance(h, ast.ExceptHandler) and h.type is not None and 'RegionsNotSupportedError' in pf.nsrc(h.type)]
             ctx.need(hs3, f'{rel}::{q}: handler for RegionsNotSupportedError not recognised')
-            okr = all(any(isinstance(c, ast.Call) and (pf.dotted(c.func) or '') == 'mark_job_errored' for b in h.body for c in pf.walk_shallow(b)) for h in hs3)
+            oks = [_marks_errored(m, fn, h.body) for h in hs3]
+            ctx.need(all(o is not None for o in oks), f'{rel}::{q}: the RegionsNotSupportedError handler calls a helper that is not followed')
+            okr = all(oks)
             line = hs3[0].lineno
         ctx.check(okr, 'R4', cons, 'a job none of whose regions is supported is not marked Error: no instance can ever take it, it stays Ready for ever', m.path, line)
+
+
+def _marks_errored(m, fn, body) -> Optional[bool]:
+    """Does this statement list mark the job Error?  True: it calls mark_job_errored directly or through a helper (nested def of `fn`, or
+    module-level function) whose body does; None: it calls a local helper that cannot be followed (undecided -> the caller declines);
+    False: it recognisably does not."""
+    nested = {d.name: d for d in ast.walk(fn) if isinstance(d, (ast.FunctionDef, ast.AsyncFunctionDef)) and d is not fn}
+    module_level = {d.name: d for d in m.tree.body if isinstance(d, (ast.FunctionDef, ast.AsyncFunctionDef))}
+
+    def direct(stmts) -> bool:
+        return any(isinstance(c, ast.Call) and (pf.dotted(c.func) or '').split('.')[-1] == 'mark_job_errored' for b in stmts for c in ast.walk(b))
+
+    if direct(body):
+        return True
+    undecided = False
+    for b in body:
+        for c in ast.walk(b):
+            if isinstance(c, ast.Call) and isinstance(c.func, ast.Name):
+                d = nested.get(c.func.id) or module_level.get(c.func.id)
+                if d is not None:
+                    if direct(d.body):
+                        return True
+                    if any(isinstance(x, ast.Call) and isinstance(x.func, ast.Name) and (x.func.id in nested or x.func.id in module_level) for y in d.body for x in ast.walk(y)):
+                        undecided = True
+            elif isinstance(c, ast.Call) and isinstance(c.func, ast.Attribute) and isinstance(c.func.value, ast.Name) and c.func.value.id == 'self':
+                undecided = True  # a method of the scheduler: not followed here
+    return None if undecided else False
 
 
 def r4_bounded_attempts(ctx: Ctx) -> None:
@@ -851,7 +881,9 @@ def r4_bounded_attempts(ctx: Ctx) -> None:
         left_prior = pf.nsrc(pf.expand_locals(fn, t.test.left)) == "record['n_prior_attempts']"
         op = t.test.ops[0]
         fires_when_many = isinstance(op, (ast.GtE, ast.Gt)) if left_prior else isinstance(op, (ast.LtE, ast.Lt))
-        errs = any(isinstance(c, ast.Call) and (pf.dotted(c.func) or '') == 'mark_job_errored' for b in t.body for c in pf.walk_shallow(b))
+        errs_ = _marks_errored(m, fn, t.body)
+        ctx.need(errs_ is not None, f'{cons}: the branch of the bound test calls a helper that is not followed')
+        errs = bool(errs_)
         g = pf.cfg(fn)
         tn = [n for n in g.find(lambda n: n.kind == 'test' and n.ast is t.test)]
         disp = g.find(lambda n: any(isinstance(x, ast.Name) and x.id in ('schedule_with_error_handling', 'create_instance_with_error_handling') for c in pf.node_calls(n) for x in ast.walk(c)))
@@ -1051,7 +1083,7 @@ def run(ctx: Ctx) -> None:
     ctx.rule('R1', 'progress coverage: every live (state, always_run, cancelled, group-cancelled) class is selected by a loop that hands it to a mover whose procedure admits the state', 26)
     ctx.rule('R2', 'always-run jobs of a cancelled batch still run: selected regardless of the flags; procedures consult cancellation only through is_job_cancelled', 6)
     ctx.rule('R3', 'every loop is live: started by its component on every path, components created at start-up, runners never give up, every event has a periodic setter', 24)
-    ctx.rule('R4', 'an attempt that can no longer finish is ended: instance loss returns Creating and Running jobs to Ready; no other way out of the live instance states; unschedulable jobs are errored', 29)
+    ctx.rule('R4', 'an attempt that can no longer finish is ended: instance loss returns Creating and Running jobs to Ready; no other way out of the live instance states; unschedulable jobs are errored', 27)
     ctx.rule('R5', 'single current attempt: jobs.attempt_id moves only with the state, := in_attempt_id on Creating / Running; stale iff another attempt; unschedule only for the current attempt', 14)
     prog = sf.load_program()
     schema = jg.full_schema(prog)
